@@ -24,7 +24,40 @@ def run(tier, replay):
         verdict = vlib.Verdict("C10")
         tv = C.judge("C10", "Trace_Conn_c10", trace, verdict, signature, heap="12g")
         n = C.count(trace)
+        # the same six headers on the responses produced under every CORS configuration of the C11 generator (explicit origins,
+        # credentials, method / header lists), in-process and from a real server started with that configuration
+        ccases = sc.path("cors_cases.ndjson")
+        with open(ccases, "w") as sink:
+            geng = vlib.run_tlc("Gen_Cors", "Gen_Cors", workers=4, heap="4g", case_sink=sink)
+        if not geng.ok:
+            raise vlib.ToolError("Gen_Cors failed:\n" + geng.out[-2000:])
+        ncors = 0
+        for tag, extra, every in (("", [], 7 if tier == "quick" else 1), ("w", ["--bin", vlib.build_rws_binary()], 23 if tier == "quick" else 3)):
+            sub = sc.path("cors_sub_%s.ndjson" % (tag or "p"))
+            with open(ccases) as f, open(sub, "w") as o:
+                for k, line in enumerate(f):
+                    if k % every == 0:
+                        o.write(line)
+            ctrace = sc.path("cors_trace%s.ndjson" % tag)
+            vlib.run_harness(["cors", "--cases", sub, "--out", ctrace, "--scratch", sc.path("csite" + tag)] + extra, timeout=3000)
+            tvc = vlib.validate_trace("Trace_Cors", ctrace, cfg="Trace_Cors_c10", heap="8g")
+            evs = vlib.read_ndjson(ctrace)
+            ncors += sum(1 for e in evs if e["ev"] == "Req")
+            cur = None
+            cfg_at = {}
+            for i, e in enumerate(evs, 1):
+                if e["ev"] == "Config":
+                    cur = e["cfg"]
+                cfg_at[i] = cur
+            for f in tvc.fails:
+                e = evs[f["i"] - 1]
+                c = cfg_at[f["i"]]
+                verdict.reject("%s:cors_config:all=%s:origin=%s" % (",".join(sorted(f["props"])), c["all"], "yes" if e["q"]["has_origin"] else "no"),
+                               {"clauses": sorted(f["props"]), "surface": "wire" if tag else "in-process", "q": e["q"],
+                                "cfg": {k: c[k] for k in ("all", "origins", "creds", "methods", "headers", "maxage")},
+                                "headers": [[h["n"], h["v"]] for h in e["r"]["hs"]][:30]})
         ev["coverage"] = {
+            "cors_configuration_responses": ncors,
             "states": mc.distinct + sum(g.distinct for g in gens), "transitions": mc.generated + sum(g.generated for g in gens),
             "traces_validated_against_impl": n["End"], "transport_write_events": n["Write"], "spec_cases_replayed": total,
             "samples": C.samples(trace, 3),
